@@ -41,7 +41,7 @@ func solveOblig(o *Oblig, budget int) SolveResult {
 			if per < 5 {
 				per = 5
 			}
-			results[c] = solve2(fmt.Sprintf("%s.cube%d", o.Name, c), script, "", per)
+			results[c] = solve2(fmt.Sprintf("%s.cube%d", o.Name, c), script, "-", per)
 		}(c, script)
 	}
 	wg.Wait()
